@@ -381,7 +381,7 @@ class BzrUploader:
             relpath: Path where the symlink should be created.
             target: Target path that the symlink should point to.
         """
-        self.to_transport.symlink(target, relpath)
+        self.to_transport.symlink(urlutils.escape(target), urlutils.escape(relpath))
 
     def upload_symlink_robustly(self, relpath, target):
         """Upload a symlink, clearing any existing item at the path.
@@ -445,7 +445,12 @@ class BzrUploader:
         """
         if not self.quiet:
             self.outf.write(f"Deleting {relpath}\n")
-        self._up_delete(relpath)
+        try:
+            self._up_delete(relpath)
+        except NoSuchFile:
+            # A full upload never copies these two files: they may not be there.
+            if relpath not in (".bzrignore", ".bzrignore-upload"):
+                raise
 
     def delete_remote_dir(self, relpath):
         """Delete an empty directory from the remote location.
